@@ -77,3 +77,30 @@ func itoa(n int) string {
 	}
 	return s
 }
+
+// harnessC05Lexeme: for every STRING or REGEX token text of up to scanLexN bytes (a symbolic
+// lexeme accepted as such by the documented automaton), the real evalDFA returns the text
+// between the delimiters, nothing more and nothing less.
+func harnessC05Lexeme() {
+	n := verif.Len("n", 2, scanLexN)
+	b := verif.Bytes("x", n)
+	verif.Assume(verif.Or(b[0] == '"', b[0] == '/'))
+	q, p := 0, 0
+	for i := range b {
+		verif.Assume(verif.And(b[i] >= 1, b[i] <= 0x7F))
+		q = verif.Concretize(refDelta(q, rune(b[i])))
+		verif.Assume(q != -1)
+		p = verif.Concretize(advanceDFA(p, rune(b[i])))
+	}
+	code := refLabelCode(q)
+	verif.Assume(verif.Or(code == refCodeSTRING, code == refCodeREGEX))
+	l := &Lexer{in: &stubBuf{lexeme: verif.String(b)}}
+	tok := l.evalDFA(p)
+	verif.Reach("lexeme")
+	want := "STRING"
+	if verif.Concretize(code) == refCodeREGEX {
+		want = "REGEX"
+	}
+	verif.Assert(string(tok.Terminal) == want, "a "+want+" text is evaluated as another kind")
+	verif.Assert(tok.Lexeme == verif.String(b[1:n-1]), "the lexeme of a "+want+" is not exactly the text between its delimiters")
+}
